@@ -42,6 +42,8 @@ def energy_force_pairing(ctx):
             ch, fh = view.method("h")
             if fE is None or fh is None or cE is None or ch is None:
                 continue
+            if view.kind("E_pot") != "method":
+                continue  # a class attribute / store in a more derived class hides the inherited method (E_pot = None: no energy reported)
             n += 1
             C = f"{ci.rel}:{ci.qual}"
             if cE is ch:
@@ -248,5 +250,7 @@ MUTANTS += [
          old="        self.plane_axes = np.roll([0, 1, 2], -axis)[1:]", new="        self.plane_axes = np.delete((0, 1, 2), axis)", expect="C07.R6"),
 ]
 NEUTRAL = [
+    dict(id="c07-n-r8", what="B_Force derives from Force but declares that it has no potential energy", file="cardillo/forces/force.py",
+         old="class B_Force:\n", new="class B_Force(Force):\n    E_pot = None\n"),
     dict(id="c07-n-r5", canary=True, what="Force lambdas rewritten with keyword arguments (same point)", file="cardillo/forces/force.py",
          old="        self.r_OP = lambda t, q: subsystem.r_OP(t, q, xi, B_r_CP)\n", new="        self.r_OP = lambda t, q: subsystem.r_OP(t, q, xi=xi, B_r_CP=B_r_CP)\n"),]
